@@ -471,7 +471,7 @@ def _gen_files(rng, k):
         clone = ext not in ("None", None) and rng.random() < 0.3
         if not clone:
             if visible and rng.random() < 0.5:
-                for nme in rng.sample(visible, rng.choice([1, 1, 2])):
+                for nme in rng.sample(visible, min(len(visible), rng.choice([1, 1, 2]))):
                     cols.append(C14._entry(rng, nme, "RequireNullValue" if rng.random() < 0.8 else rng.choice(NULLABLE)))
             fresh = ["x%d_%d" % (i, q) for q in range(4)]
             for nme in rng.sample(fresh, rng.randint(1, 3) if not visible else rng.randint(0, 2)):
